@@ -88,7 +88,10 @@ def ph_unpack(data: Bytes, n: N):
     if o.ok:
         h = o.value
         w = from_be(data[0:4])
-        ensures("ids", both(h.scid == bits(w, 27, 12), h.src_dest == bits(w, 11, 11), h.vcid == bits(w, 10, 5), h.map_id == bits(w, 4, 1)))
+        ensures("scid", h.scid == bits(w, 27, 12))
+        ensures("src-dest", h.src_dest == bits(w, 11, 11))
+        ensures("vcid", h.vcid == bits(w, 10, 5))
+        ensures("map-id", h.map_id == bits(w, 4, 1))
         ensures("frame-len", h.frame_len == data[4] * 256 + data[5])
         ensures("flags", both(h.bypass_seq_ctrl_flag == bits(data[6], 7, 7), h.prot_ctrl_cmd_flag == bits(data[6], 6, 6),
                               h.op_ctrl_flag == bits(data[6], 3, 3), h.vcf_count_len == n))
@@ -114,7 +117,10 @@ def th_unpack(data: Bytes):
         if o.ok:
             h = o.value
             w = from_be(data[0:4])
-            ensures("ids", both(h.scid == bits(w, 27, 12), h.src_dest == bits(w, 11, 11), h.vcid == bits(w, 10, 5), h.map_id == bits(w, 4, 1)))
+            ensures("scid", h.scid == bits(w, 27, 12))
+            ensures("src-dest", h.src_dest == bits(w, 11, 11))
+            ensures("vcid", h.vcid == bits(w, 10, 5))
+            ensures("map-id", h.map_id == bits(w, 4, 1))
             ensures("len", both(h.len() == 4, h.truncated()))
             ensures("repack", h.pack() == data[0:4])
             ensures("prefix-only", same_state(h, TruncatedPrimaryHeader.unpack(data[0:4])))
